@@ -134,6 +134,19 @@ theorem c10_dechunk_guard_is_extracted : ckSizeLimit = 2 ^ Extracted.dechunkGuar
 example : DcGoodLine (ofString "5;x=y\r\n") 5 := ⟨by rfl, ⟨ofString "5;x=y\r", by decide, by decide⟩, by decide⟩
 example : DcGoodLine (ofString "00a \r\n") 10 := ⟨by rfl, ⟨ofString "00a \r", by decide, by decide⟩, by decide⟩
 example : DcGoodLine (ofString "0\r\n") 0 := ⟨by rfl, ⟨ofString "0\r", by decide, by decide⟩, by decide⟩
+example : DcTrailerEnd (ofString "0\r\n") [cr, lf] := by
+  refine ⟨by decide, by decide, by decide, ?_⟩
+  intro q r h hr hq
+  match q, r, h, hr, hq with
+  | [], _, _, _, hq => exact absurd rfl hq
+  | [a], [b], h, _, _ =>
+    simp only [List.cons_append, List.nil_append, List.cons.injEq, and_true] at h
+    rw [← h.1]; decide
+  | [_], [], _, hr, _ => exact absurd rfl hr
+  | [_], _ :: _ :: _, h, _, _ => simp at h
+  | [_, _], [], _, hr, _ => exact absurd rfl hr
+  | [_, _], _ :: _, h, _, _ => simp at h
+  | _ :: _ :: _ :: _, _, h, _, _ => simp at h
 example : dcFeed {} (ofString "5\r\nhello\r\n0\r\nX-T: v\r\n\r\n") =
     { mode := .done (ofString "0\r\nX-T: v\r\n\r\n"), out := ofString "hello" } := by decide
 example : (dcFeed {} (ofString "5\r\nhello\r\n0\r\n\r")).mode = .trailer (ofString "0\r\n\r") := by decide
